@@ -167,6 +167,13 @@ func (f *file) asyncReadNow(b []byte, readSoFar int, readAll bool, cb AsyncCallb
 	n, err := f.Read(b[readSoFar:])
 	readSoFar += n
 
+	// A partial read without an error does not complete a readAll: keep reading until the buffer is full, the read
+	// would block (then we schedule below) or an error occurs.
+	for err == nil && readAll && readSoFar != len(b) {
+		n, err = f.Read(b[readSoFar:])
+		readSoFar += n
+	}
+
 	// f is a nonblocking fd so if err == ErrWouldBlock
 	// then we need to schedule an async read.
 
@@ -229,6 +236,13 @@ func (f *file) asyncWrite(b []byte, writeAll bool, cb AsyncCallback) {
 func (f *file) asyncWriteNow(b []byte, wroteSoFar int, writeAll bool, cb AsyncCallback) {
 	n, err := f.Write(b[wroteSoFar:])
 	wroteSoFar += n
+
+	// A partial write without an error does not complete a writeAll: keep writing until everything is written, the
+	// write would block (then we schedule below) or an error occurs.
+	for err == nil && writeAll && wroteSoFar != len(b) {
+		n, err = f.Write(b[wroteSoFar:])
+		wroteSoFar += n
+	}
 
 	if err == nil && !(writeAll && wroteSoFar != len(b)) {
 		// If writeAll == true then we wrote fully without errors.
